@@ -717,15 +717,12 @@ fn exec_range(w: &Shared, rt: &tokio::runtime::Runtime, ops: &Rc<Vec<Op>>, from:
             }
         }
         let mut wb = w.borrow_mut();
-        // Any change of the transport's state counts as an event the transport reports to its
-        // user (a spurious wakeup is always allowed): whether the scripted transport itself
-        // wakes correctly is not what is under test; tarpc's own wake sources (queues,
-        // oneshots, timers, permits) are never forced.
-        if matches!(
-            op,
-            Op::Deliver(..) | Op::DeliverErr(..) | Op::Eof | Op::SetReady(_) | Op::SetFlush(_)
-                | Op::SetClose(_) | Op::Fail(_) | Op::Drain(_)
-        ) {
+        // Arming a fault is the one transport event nobody can be waiting for (the model's
+        // unsolicited poll would run into it): it wakes the dispatch, as a failing socket would.
+        // Everything else relies on real wakers: the scripted transport wakes whoever its last
+        // Pending answer registered (read / ready / flush / close), and tarpc's own wake
+        // sources (queues, oneshots, timers, permits) are never forced.
+        if matches!(op, Op::Fail(_)) {
             wb.dwaker.waker.wake_by_ref();
         }
         wb.obs.push(o);
